@@ -151,6 +151,8 @@ pub struct Interp {
     pub stack: Vec<CallFrame>,
     pub max_call_depth: usize,
     pub in_slot: u32,
+    // Call depth at the entry of every slot being evaluated.
+    slot_depths: Vec<usize>,
     pub labels: BTreeSet<&'static str>,
     // For `dynamic_scope`: the environment of the caller.
     dyn_env: Vec<Env>,
@@ -163,8 +165,9 @@ pub fn run(p: &Prog) -> RunResult {
 pub fn run_with(p: &Prog, sem: &Sem, lim: &Limits) -> RunResult {
     let mut it = Interp{
         sem: sem.clone(), lim: lim.clone(), out: vec![], steps: 0, stack: vec![],
-        max_call_depth: 0, in_slot: 0, labels: BTreeSet::new(), dyn_env: vec![],
+        max_call_depth: 0, in_slot: 0, slot_depths: vec![], labels: BTreeSet::new(), dyn_env: vec![],
     };
+    release_frames();
     let global = new_frame(None);
     global.vars.borrow_mut().insert(
         "print".to_string(),
@@ -179,12 +182,18 @@ pub fn run_with(p: &Prog, sem: &Sem, lim: &Limits) -> RunResult {
         Err(Abort::Err(e)) => Outcome::Err(*e),
         Err(Abort::Discard(why)) => Outcome::Discard(why),
     };
-    RunResult{out: it.out, outcome, steps: it.steps, max_call_depth: it.max_call_depth, labels: it.labels}
+    let result = RunResult{out: it.out, outcome, steps: it.steps, max_call_depth: it.max_call_depth, labels: it.labels};
+    it.stack.clear();
+    it.dyn_env.clear();
+    drop(global);
+    release_frames();
+    result
 }
 
 impl Interp {
     fn mk_err(&self, kind: EKind, node: Id, rule: PosRule) -> RErr {
-        RErr{kind, node, rule, stack: self.stack.clone(), in_slot: self.in_slot > 0}
+        let direct = self.slot_depths.last().map(|d| *d == self.stack.len()).unwrap_or(false);
+        RErr{kind, node, rule, stack: self.stack.clone(), in_slot: self.in_slot > 0, in_slot_direct: direct}
     }
 
     fn fail<T>(&self, kind: EKind, node: Id, rule: PosRule) -> R<T> {
@@ -930,7 +939,9 @@ impl Interp {
                         StrPart::Text(t) => out.extend_from_slice(&text_bytes(t)),
                         StrPart::Slot(se) => {
                             self.in_slot += 1;
+                            self.slot_depths.push(self.stack.len());
                             let r = self.eval(se, env);
+                            self.slot_depths.pop();
                             let r = match r {
                                 Ok(v) => match &v.v {
                                     Val::Str(s) => {
@@ -1245,7 +1256,7 @@ impl Interp {
                 let parent =
                     if self.sem.dynamic_scope { env.clone() } else { func.env.clone() };
                 let frame = new_frame(Some(parent));
-                self.stack.push(CallFrame{call: e.id, callee: func.name.clone()});
+                self.stack.push(CallFrame{call: e.id, callee: func.name.clone(), from_slot: self.slot_depths.last().map(|d| *d == self.stack.len()).unwrap_or(false)});
                 self.max_call_depth = self.max_call_depth.max(self.stack.len());
                 let r = self.call_body(func, argv, &fv, &frame, e.id);
                 match r {
